@@ -138,6 +138,8 @@ type c10Script struct {
 	Details    bool
 	MD         string // none ascii two bin
 	ChunkLimit int    // > 0: the mux's receive limit (HttpBody uploads are cut into chunks of this size)
+	Gzip       bool   // gRPC front: the client negotiates gzip message compression
+	Opts       bool   // the mux has pass-through interceptors and a stats handler
 }
 
 func (s c10Script) name() string {
@@ -153,7 +155,14 @@ func (s c10Script) name() string {
 	if s.PingPong {
 		pp = "-pingpong"
 	}
-	return fmt.Sprintf("%s-%s-n%d-%s-%s-k%d%s-%s-md:%s", s.Front, s.Shape, s.N, hc, rd, s.K, pp, s.Code, s.MD)
+	suffix := ""
+	if s.Gzip {
+		suffix += "-gzip"
+	}
+	if s.Opts {
+		suffix += "-opts"
+	}
+	return fmt.Sprintf("%s-%s-n%d-%s-%s-k%d%s-%s-md:%s%s", s.Front, s.Shape, s.N, hc, rd, s.K, pp, s.Code, s.MD, suffix)
 }
 
 type c10Sys struct {
@@ -210,11 +219,15 @@ func newC10Sys(sc c10Script) *c10Sys {
 	// with its reflection exchange is by far the most expensive step) and shared by all
 	// executions: requests do not change the routing state, and all per-call state lives in
 	// the c10Sys the back-end callbacks are pointed at.
-	sh := c10SharedBy[sc.ChunkLimit]
+	shKey := fmt.Sprintf("%d|%v", sc.ChunkLimit, sc.Opts)
+	sh := c10SharedBy[shKey]
 	if sh == nil {
 		var mopts []larking.MuxOption
 		if sc.ChunkLimit > 0 {
 			mopts = append(mopts, larking.MaxReceiveMessageSizeOption(sc.ChunkLimit))
+		}
+		if sc.Opts {
+			mopts = append(mopts, c15PassThroughOpts()...)
 		}
 		m, err := larking.NewMux(mopts...)
 		if err != nil {
@@ -231,7 +244,7 @@ func newC10Sys(sc c10Script) *c10Sys {
 		if err := m.RegisterConn(context.Background(), b.Conn()); err != nil {
 			panic(err)
 		}
-		c10SharedBy[sc.ChunkLimit] = sh
+		c10SharedBy[shKey] = sh
 	}
 	sh.cur = s
 	s.mux, s.backend = sh.mux, sh.backend
@@ -262,7 +275,7 @@ type c10SharedT struct {
 	cur     *c10Sys
 }
 
-var c10SharedBy = map[int]*c10SharedT{} // by receive limit (0 = default)
+var c10SharedBy = map[string]*c10SharedT{} // by (receive limit, options)
 
 func (s *c10Sys) clientMsg(i int) proto.Message {
 	return s.t.newReq("", []byte(fmt.Sprintf("msg-%d", i)), 0)
@@ -286,6 +299,10 @@ func c10Scenario(sc c10Script) *e3Scenario {
 		var req *http.Request
 		if sc.Front == "grpc" {
 			hdr.Set("Content-Type", "application/grpc")
+			if sc.Gzip {
+				hdr.Set("Grpc-Encoding", "gzip")
+				hdr.Set("Grpc-Accept-Encoding", "gzip")
+			}
 			req = newPostRequest("/vs.T/"+method, hdr, s.body, -1)
 			req.Proto, req.ProtoMajor, req.ProtoMinor = "HTTP/2.0", 2, 0
 		} else {
@@ -312,7 +329,11 @@ func c10Scenario(sc c10Script) *e3Scenario {
 			s.sent = append(s.sent, m)
 			if sc.Front == "grpc" {
 				pb, _ := proto.Marshal(m)
-				s.body.buf = append(s.body.buf, wire.GRPCFrame(0, pb)...)
+				if sc.Gzip {
+					s.body.buf = append(s.body.buf, wire.GRPCFrame(1, gzipBytes(pb))...)
+				} else {
+					s.body.buf = append(s.body.buf, wire.GRPCFrame(0, pb)...)
+				}
 			} else {
 				js, _ := protojson.Marshal(m)
 				s.body.buf = append(s.body.buf, js...)
@@ -512,6 +533,13 @@ func c10Scripts(thorough bool) []c10Script {
 		add(c10Script{Shape: "bidi", Front: front, N: 2, HalfClose: true, R: 1, K: 1, Code: codes.Internal, Msg: "mid", Details: true, MD: "none"})
 		add(c10Script{Shape: "bidi", Front: front, N: 1, HalfClose: false, R: 1, K: 1, Code: ok, MD: "none"})
 		add(c10Script{Shape: "bidi", Front: front, N: 0, HalfClose: true, ReadAll: true, K: 1, Code: ok, MD: "none"})
+		// options and compression on the front must be invisible to the back-end and the client
+		add(c10Script{Shape: "bidi", Front: front, N: 2, HalfClose: true, ReadAll: true, K: 2, PingPong: true, Code: ok, MD: "two", Opts: true})
+		add(c10Script{Shape: "cs", Front: front, N: 2, HalfClose: true, ReadAll: true, K: 1, Code: ok, MD: "bin", Opts: true})
+		if front == "grpc" {
+			add(c10Script{Shape: "bidi", Front: front, N: 2, HalfClose: true, ReadAll: true, K: 2, PingPong: true, Code: ok, MD: "ascii", Gzip: true})
+			add(c10Script{Shape: "ss", Front: front, N: 1, HalfClose: true, R: 1, K: 2, Code: codes.Internal, Msg: "late", Details: true, MD: "none", Gzip: true})
+		}
 		if thorough {
 			add(c10Script{Shape: "bidi", Front: front, N: 3, HalfClose: true, ReadAll: true, K: 2, PingPong: true, Code: codes.NotFound, Msg: "after all", MD: "two"})
 			add(c10Script{Shape: "bidi", Front: front, N: 3, HalfClose: true, R: 2, K: 2, PingPong: true, Code: ok, MD: "none"})
@@ -530,6 +558,10 @@ func c10CodeSweep() []c10Script {
 	for _, front := range []string{"grpc", "http"} {
 		for code := codes.Code(1); code <= 17; code++ {
 			msg := fmt.Sprintf("ends with %d", uint32(code))
+			// a third of the codes with gzip negotiated on the gRPC front, a third on a mux with
+			// pass-through interceptors and a stats handler
+			gz, op := front == "grpc" && code%3 == 1, code%3 == 2
+			n0 := len(out)
 			out = append(out,
 				c10Script{Shape: "unary", Front: front, N: 1, HalfClose: true, K: 1, Code: code, Msg: msg, MD: "none"},
 				c10Script{Shape: "ss", Front: front, N: 1, HalfClose: true, R: 1, K: 1, Code: code, Msg: msg, Details: code%2 == 1, MD: "none"},
@@ -537,6 +569,9 @@ func c10CodeSweep() []c10Script {
 				c10Script{Shape: "cs", Front: front, N: 2, HalfClose: true, ReadAll: true, K: 0, Code: code, Msg: msg, MD: "none"},
 				c10Script{Shape: "bidi", Front: front, N: 1, HalfClose: true, ReadAll: true, K: 1, Code: code, Msg: msg, Details: code%2 == 0, MD: "none"},
 				c10Script{Shape: "bidi", Front: front, N: 2, HalfClose: true, R: 1, K: 0, Code: code, Msg: msg, MD: "none"})
+			for i := n0; i < len(out); i++ {
+				out[i].Gzip, out[i].Opts = gz, op
+			}
 		}
 	}
 	return out
@@ -671,7 +706,11 @@ func c10Scenarios(thorough bool) []*e3Scenario {
 	seen := map[string]bool{}
 	for _, s := range c10Scripts(thorough) {
 		seen[s.name()] = true
-		scs = append(scs, c10Scenario(s))
+		sc := c10Scenario(s)
+		if (s.Gzip || s.Opts) && !thorough {
+			sc.BoundCap = 2 // compression and stats add many choice points per execution; the quick tier stops these at 2 preemptions
+		}
+		scs = append(scs, sc)
 	}
 	for _, s := range c10CodeSweep() {
 		if seen[s.name()] {
@@ -691,7 +730,7 @@ func runC10(c *Ctx) {
 	if c.Thorough() {
 		bound, per = 4, 10*time.Minute
 	}
-	r.Rule(fmt.Sprintf("call scripts on the four shapes of a service discovered by reflection from a scripted back-end: front {gRPC, HTTP/JSON} × client {n messages, half-closes or waits for the final status} × back-end {reads r messages or until EOF, sends k replies (batch or ping-pong), finishes with OK / NotFound / Internal+details / PermissionDenied before the first read; plus proxied google.api.HttpBody uploads over HTTP (default and small receive limits so that the body is forwarded in several chunks while replies are relayed); plus a sweep of every final status code 1..17 on every shape, with and without a reply before it (preemption bound 1)} × request metadata {none, one value, two values, -bin}; threads: front server (ServeHTTP), client, back-end script, larking's pump goroutine; every interleaving with at most %d preemptions (bounds iterated from 0); oracle per schedule: the back-end received exactly what it would receive directly (messages, EOF, metadata), the client received exactly the back-end's replies and final status, no panic, no deadlock (a hang is a deadlock of the controlled threads); distinct = (script, outcome)", bound))
+	r.Rule(fmt.Sprintf("call scripts on the four shapes of a service discovered by reflection from a scripted back-end: front {gRPC, HTTP/JSON} × client {n messages, half-closes or waits for the final status} × back-end {reads r messages or until EOF, sends k replies (batch or ping-pong), finishes with OK / NotFound / Internal+details / PermissionDenied before the first read; plus proxied google.api.HttpBody uploads over HTTP (default and small receive limits so that the body is forwarded in several chunks while replies are relayed); plus a sweep of every final status code 1..17 on every shape, with and without a reply before it (preemption bound 1)} × request metadata {none, one value, two values, -bin} × front options {plain, gzip negotiated on the gRPC front, mux with pass-through interceptors and a stats handler}; threads: front server (ServeHTTP), client, back-end script, larking's pump goroutine; every interleaving with at most %d preemptions (bounds iterated from 0); oracle per schedule: the back-end received exactly what it would receive directly (messages, EOF, metadata), the client received exactly the back-end's replies and final status, no panic, no deadlock (a hang is a deadlock of the controlled threads); distinct = (script, outcome)", bound))
 	r.Assume("the back-end stream follows grpc-go's documented ClientStream contract (SendMsg -> io.EOF once done, RecvMsg -> message / io.EOF / status error); validated against real grpc-go on both sides by the conformance pass", "response header/trailer metadata is not part of the property")
 	runScenarios(c, c10Scenarios(c.Thorough()), bound, per, 0)
 	if c.Shards == 0 {
